@@ -398,7 +398,29 @@ class Unit:
                 out.append((m, '', 'module', fname, f))
         return out
 
+    def find_reinit(self):
+        """classes whose __init__ is called again from an ordinary method (mistral.set_default calls
+        GenericBackendSystem.__init__(self)): their __init__ stores are ordinary overwrites / clears"""
+        out = set()
+        for m, cname, okind, fname, fn in self.scopes():
+            if fname.split('.')[-1] == '__init__':
+                continue
+            for n in ast.walk(fn):
+                if isinstance(n, ast.Call) and isinstance(n.func, ast.Attribute) and n.func.attr == '__init__':
+                    v = n.func.value
+                    if isinstance(v, ast.Name) and v.id != 'self':
+                        out.add(v.id)
+                    else:
+                        out.add('*')      # self.__init__() / super().__init__(): every class of the hierarchy
+        return out
+
+    def is_init(self, cname, fname):
+        if fname.split('.')[-1] != '__init__':
+            return False
+        return '*' not in self.reinit and cname not in self.reinit
+
     def collect_sites(self):
+        self.reinit = self.find_reinit()
         pending_chain = []
         slot_stores = []     # every `X.attr = <expr>` seen, to find stores into slots that are not recognised
         for m, cname, okind, fname, fn in self.scopes():
@@ -452,12 +474,12 @@ class Unit:
             if isinstance(st, ast.Delete):
                 raise GenError('%s: `del` of slot attribute %s not recognised' % (where, t.attr))
             if isinstance(st.value, ast.Constant) and st.value.value is None:
-                if fname.split('.')[-1] == '__init__':
+                if self.is_init(cname, fname):
                     continue
                 g = guard_before(fn, st, U(t), where)
                 self.clears.append(Site(fn=fname, attr=t.attr, guard=g, where=where))
                 continue
-            if t.attr in multi_attrs and fname.split('.')[-1] == '__init__' and (
+            if t.attr in multi_attrs and self.is_init(cname, fname) and (
                     isinstance(st.value, (ast.List, ast.Set)) or (
                         isinstance(st.value, ast.Call) and isinstance(st.value.func, ast.Name)
                         and st.value.func.id in ('Queue', 'list', 'set', 'deque') and not st.value.args)):
@@ -475,7 +497,7 @@ class Unit:
             if isinstance(t, ast.Attribute) and isinstance(t.value, ast.Name):
                 s.attr, s.owner_expr, target = t.attr, t.value.id, t
                 s.store_stmt = st
-                if fname.split('.')[-1] == '__init__':
+                if self.is_init(cname, fname):
                     s.guard = 'GInit'
                 else:
                     s.guard = guard_before(fn, st, U(t), where)
